@@ -23,6 +23,7 @@ func init() {
 			{Name: "failed-attempt-and-retry", Run: c05Retry, QuickS: 120, ThoroughS: 300},
 			{Name: "lazy-candidates", Run: c05Lazy, Workers: 4, QuickS: 30, ThoroughS: 60},
 			{Name: "lazy-processors", Run: c05LazyProc, Workers: 2, QuickS: 30, ThoroughS: 60},
+			{Name: "panicking-init", Run: c05PanicInit, Workers: 1, QuickS: 30, ThoroughS: 60},
 		},
 	})
 }
